@@ -716,6 +716,8 @@ class Exec:
         st = State()
         # parameters
         for pname, ty in c.params.items():
+            if pname == "return":
+                continue
             st.locals[pname] = self.fresh_param(st, pname, ty)
             pv = st.locals[pname]
             if isinstance(pv, SList):
@@ -773,7 +775,7 @@ class Exec:
         self.check_frame(st)
 
     def check_frame(self, st):
-        allowed = self.modset_of_contract(self.contract, {p: self.old.locals[p] for p in self.contract.params}, self.old)
+        allowed = self.modset_of_contract(self.contract, {p: self.old.locals[p] for p in self.contract.params if p in self.old.locals}, self.old)
         for oid, fields in self.old.heap.items():
             if oid not in st.heap:
                 continue
@@ -828,6 +830,8 @@ class Exec:
             return FnVal()
         if ty == "none":
             return None
+        if ty == "tuple":
+            raise Unsupported("tuple-valued results are only supported while the function itself is verified")
         if ty.startswith("optlist["):
             return Opt(fresh(pname + ".given", BOOL), fresh_list(pname, ty[8:-1]))
         raise Unsupported("param type %s" % ty)
@@ -1685,9 +1689,13 @@ class Exec:
         return False
 
     def expr_Slice(self, st, e):
-        if e.lower is None and e.upper is None and e.step is None:
+        if e.step is not None:
+            raise Unsupported("slice step")
+        if e.lower is None and e.upper is None:
             return ("slice",)
-        raise Unsupported("slice with bounds")
+        lo = self.eval(st, e.lower) if e.lower is not None else None
+        hi = self.eval(st, e.upper) if e.upper is not None else None
+        return ("slice", lo, hi)
 
     def expr_Tuple(self, st, e):
         return tuple(self.eval(st, x) for x in e.elts)
@@ -1809,9 +1817,32 @@ class Exec:
     def expr_Subscript(self, st, e):
         base = self.eval(st, e.value)
         idx = self.eval(st, e.slice)
-        if isinstance(base, SList) and isinstance(idx, tuple) and len(idx) == 2 and idx[1] == ("slice",):
+        if isinstance(base, SList) and isinstance(idx, tuple) and len(idx) == 2 and idx[1] == ("slice",) \
+                and not isinstance(idx[0], SList):
             self.check_index(st, base, idx[0], e)      # X[j, :] : row j of a 2-D array modelled as a list of rows
             return base[idx[0]]
+        if isinstance(base, SList) and isinstance(idx, tuple) and len(idx) == 3 and idx[0] == "slice":
+            # v[lo:hi] with 0 <= lo <= hi <= len (checked): a fresh list of the selected entries
+            lo = 0 if idx[1] is None else idx[1]
+            hi = base.length if idx[2] is None else idx[2]
+            self.oblige(st, "safe", "slice", "bounds", L.conj(L.le(0, lo), L.le(lo, hi), L.le(hi, base.length)), e)
+            new = fresh("slice", base.arr.sort())
+            r = L.fresh_int("sl")
+            st.assume(z3.ForAll([r], z3.Implies(z3.And(r >= 0, r < L.lift(hi - lo, INT)),
+                                                z3.Select(new, r) == z3.Select(base.arr, L.lift(lo, INT) + r)),
+                                patterns=[z3.Select(new, r)]))
+            return SList(new, hi - lo, base.elem)
+        gidx = idx[0] if (isinstance(idx, tuple) and len(idx) == 2 and idx[1] == ("slice",)) else idx
+        if isinstance(base, SList) and isinstance(gidx, SList) and gidx.elem == "int":
+            # fancy indexing with an integer array: a fresh array (copy) of the selected rows / entries
+            self.oblige(st, "safe", "index", "gather-in-range",
+                        L.forall(0, gidx.length, lambda k: L.conj(L.le(0, gidx[k]), L.lt(gidx[k], base.length))), e)
+            new = fresh("gather", base.arr.sort())
+            r = L.fresh_int("ga")
+            st.assume(z3.ForAll([r], z3.Implies(z3.And(r >= 0, r < L.lift(gidx.length, INT)),
+                                                z3.Select(new, r) == z3.Select(base.arr, z3.Select(gidx.arr, r))),
+                                patterns=[z3.Select(new, r)]))
+            return SList(new, gidx.length, base.elem)
         if isinstance(base, SList):
             self.check_index(st, base, idx, e)
             return base[idx]
@@ -2066,6 +2097,11 @@ class Exec:
                 args = [self.eval(st, a) for a in e.args]
                 kwargs = {k.arg: self.eval(st, k.value) for k in e.keywords}
                 return self.contract_call(st, qn, None, args, kwargs, e)
+            if qn in self.repo.functions and self.repo.functions[qn][2] is None:
+                # a module-level helper without a contract: inlined
+                args = [self.eval(st, a) for a in e.args]
+                kwargs = {k.arg: self.eval(st, k.value) for k in e.keywords}
+                return self.inline_call(st, self.repo.functions[qn][0], None, args, e, kwargs=kwargs)
             if nm in ("abs",):
                 v = self.eval(st, e.args[0])
                 return L.ite(L.ge(v, 0), v, -v)
@@ -2116,6 +2152,12 @@ class Exec:
                 a = self.aliases[f.value.id]
                 full = (a[1] if a[0] == "module" else "%s.%s" % (a[1], a[2])) + "." + f.attr
                 return self.call_module_fn(st, full, e)
+            if isinstance(f.value, ast.Attribute) and isinstance(f.value.value, ast.Name) \
+                    and f.value.value.id in self.aliases and f.value.value.id not in st.locals:
+                a = self.aliases[f.value.value.id]
+                full = (a[1] if a[0] == "module" else "%s.%s" % (a[1], a[2])) + "." + f.value.attr + "." + f.attr
+                if full in EXTERNALS:
+                    return self.call_module_fn(st, full, e)
             base = self.eval(st, f.value)
             if isinstance(base, ObjRef):
                 fields = st.heap[base.oid]
